@@ -69,6 +69,30 @@ def build_harness(features=True, timeout=1800):
     return ACVH
 
 
+ACVH_OC = os.path.join(TARGET, "oc", "acvh")
+_BIN = [ACVH]
+
+
+class overflow_checked:
+    """Context manager: the harness (and credx under it) rebuilt with profile `oc` = release +
+    overflow-checks + debug-assertions, and run_exec switched to that binary.  An arithmetic overflow
+    or a failed debug_assert! then unwinds as it does in a debug build of the library."""
+    def __enter__(self):
+        with Lock("cargo.lock"):
+            t0 = time.time()
+            p = subprocess.run(["cargo", "build", "--profile", "oc", "--offline"], cwd=HARNESS, env=env_offline(),
+                               capture_output=True, text=True, timeout=3000)
+            if p.returncode != 0:
+                raise Infra("harness build (overflow-checked) failed:\n" + p.stderr[-4000:])
+            log(f"[build] harness (overflow-checked profile) ok in {time.time()-t0:.1f}s")
+        _BIN[0] = ACVH_OC
+        return self
+
+    def __exit__(self, *a):
+        _BIN[0] = ACVH
+        return False
+
+
 def coq_sources():
     out = []
     for line in open(os.path.join(COQ, "_CoqProject")):
@@ -239,7 +263,7 @@ def coqchk(pid, timeout=3000):
 def run_exec(ops, timeout=3600):
     """Run the implementation on a list of op dicts; returns list of result dicts."""
     inp = "\n".join(json.dumps(o, separators=(",", ":")) for o in ops) + "\n"
-    p = subprocess.run([ACVH, "exec"], input=inp, capture_output=True, text=True, timeout=timeout)
+    p = subprocess.run([_BIN[0], "exec"], input=inp, capture_output=True, text=True, timeout=timeout)
     if p.returncode != 0:
         raise Infra(f"acvh exec failed rc={p.returncode}: {p.stderr[-2000:]}")
     lines = [l for l in p.stdout.split("\n") if l.strip()]
